@@ -85,30 +85,34 @@ def scenario(tier):
 
 def long_chain(b, sym):
     """a history with 10-11 generations: a damaged manifest of ANY generation (also the two-digit ones) is refused"""
-    b.mkfile("R/a.txt", 1)
-    b.mkfile("R/d/b.txt", 2)
+    R = sym.choose("root_folder_name", ["R", "Reel [A001]"])
+    b.mkfile(R + "/a.txt", 1)
+    b.mkfile(R + "/d/b.txt", 2)
     nested = sym.flag("nested")
-    hist = "R/d" if nested else "R"
+    hist = R + "/d" if nested else R
     if nested:
-        r = b.run("create", root="R/d", h=["md5"])
-    n = sym.choose("generations", [10, 11])
+        r = b.run("create", root=R + "/d", h=["md5"])
+    n = sym.choose("generations", [10, 11] if R == "R" else [2])
     for g in range(n):
-        r = b.run("create", root="R", h=["md5"]) if g % 2 == 0 else b.run("create", root="R", h=["md5"], sf=["R/d/b.txt"])
+        r = b.run("create", root=R, h=["md5"]) if g % 2 == 0 else b.run("create", root=R, h=["md5"], sf=[R + "/d/b.txt"])
         b.require(r.exit == 0, "setup-create", str(r))
     names = b.manifest_names(hist)
-    name = sym.choose("generation", [names[0], names[8], names[9], names[-1]])
-    kind = sym.choose("kind", ["modify", "remove-manifest"])
+    name = sym.choose("generation", [names[0], names[8], names[9], names[-1]] if len(names) > 9 else [names[0], names[-1]])
+    kind = sym.choose("kind", ["modify", "remove-manifest", "remove-chain"])
     target = posixpath.join(hist, "ascmhl", name)
     if kind == "modify":
         b.alter(target, sym.choose("edit_kind", [1, 2]))
         exp, exc = 31, "ModifiedMHLManifestFileException"
+    elif kind == "remove-chain":
+        b.delete(posixpath.join(hist, "ascmhl", "ascmhl_chain.xml"))
+        exp, exc = 32, "NoMHLChainException"
     else:
         b.delete(target)
         exp, exc = 33, "MissingMHLManifestException"
     cmd = sym.choose("command", ["verify", "create", "info", "diff"])
     before = b.snapshot("")
-    r = {"verify": lambda: b.run("verify", root="R"), "create": lambda: b.run("create", root="R", h=["md5"]),
-         "info": lambda: b.run("info", root="R"), "diff": lambda: b.run("diff", root="R")}[cmd]()
+    r = {"verify": lambda: b.run("verify", root=R), "create": lambda: b.run("create", root=R, h=["md5"]),
+         "info": lambda: b.run("info", root=R), "diff": lambda: b.run("diff", root=R)}[cmd]()
     ctx = "generation %s of %s (%d generations) %s; %s -> exit %s exc %s" % (name[:4], hist, len(names), kind, cmd, r.exit, r.exc)
     b.require(r.exit == exp and r.exc == exc, "refused-with-dedicated-code", "expected %d: %s" % (exp, ctx))
     after = b.snapshot("")
